@@ -242,8 +242,21 @@ def run_client_segmentations(o, ctx, t, r):
                                      "why": "client outcome depends on how the response stream is segmented: %s vs %s (one segment)" % (impl[i][:60], ref[:60])})
             if model is not None:
                 mi = model[i]
-                proj = " ".join(w for w in impl[i].split() if not w.startswith(("body=", "bodyerr=", "cc=")))
-                projm = " ".join(w for w in mi.split() if not w.startswith("cc="))
+                # the body read through BodyReader::from_response is compared too (model: Body.BodyReader.fromResponse) whenever
+                # the model delivers one (peer closes after the scripted bytes); a failed body read is compared as "failed"
+                def canon(ws, with_body):
+                    out = []
+                    for w in ws.split():
+                        if w.startswith("cc="):
+                            continue
+                        if w.startswith(("body=", "bodyerr")):
+                            if with_body:
+                                out.append(w if w.startswith("body=") else "bodyerr")
+                            continue
+                        out.append(w)
+                    return " ".join(out)
+                wb = "body" in mi
+                proj, projm = canon(impl[i], wb), canon(mi, wb)
                 if proj != projm and len(o.mismatches) < 20:
                     o.mismatches.append({"case": lines[i], "impl": impl[i], "model": mi})
     o.extra["client_segmentation_groups"] = len(groups)
